@@ -87,3 +87,41 @@ package directive
 //@   opt prop=C02
 //@   trusted
 //@   opt storefirst=pkg/aa.IndentationLevel
+
+// Generating directives (C07). #aa:dbus: sanityCheck accepts exactly the documented forms
+// and fills in the default path and the name pattern; own yields, on the named bus only,
+// one bind rule for the name and send/receive rules on the path for the interfaces; talk
+// yields send/receive rules on the named bus and path, addressed to the peer name and label.
+//@ func (Dbus).sanityCheck
+//@   opt prop=C07
+//@   requires opt != nil
+//@   assigns opt.ArgMap
+//@   ensures (second(result) != nil) == (len(opt.ArgList) < 1 || (opt.ArgList[0] != "own" && opt.ArgList[0] != "talk" && opt.ArgList[0] != "common") || !old(has(opt.ArgMap, "name")) || !old(has(opt.ArgMap, "bus")) || (!old(has(opt.ArgMap, "label")) && opt.ArgList[0] == "talk"))
+//@   ensures imp(second(result) == nil, first(result) == opt.ArgList[0])
+//@   ensures imp(second(result) == nil, opt.ArgMap["name"] == concat(old(opt.ArgMap["name"]), "{,.*}") && opt.ArgMap["bus"] == old(opt.ArgMap["bus"]) && opt.ArgMap["label"] == old(opt.ArgMap["label"]))
+//@   ensures imp(second(result) == nil && old(has(opt.ArgMap, "path")), opt.ArgMap["path"] == old(opt.ArgMap["path"]))
+//@   ensures imp(second(result) == nil && !old(has(opt.ArgMap, "path")), opt.ArgMap["path"] == concat(concat("/", ext("strings.ReplaceAll", old(opt.ArgMap["name"]), ".", "/")), "{,/**}"))
+
+//@ func getInterfaces
+//@   opt prop=C07
+//@   assigns nothing
+//@   ensures len(result) >= 1 && len(result) <= 2
+//@   ensures imp(has(rules, "interface"), result[0] == rules["interface"]) && imp(!has(rules, "interface"), result[0] == rules["name"])
+//@   ensures (len(result) == 2) == has(rules, "interface+") && imp(len(result) == 2, result[1] == rules["interface+"])
+
+//@ func (Dbus).own
+//@   opt prop=C07
+//@   assigns nothing
+//@   loop 1 invariant len(res) >= 2 && forall(k, 0, len(res), res[k] != nil && allocated(res[k]))
+//@   loop 1 invariant forall(k, 0, len(res), imp(typeIs(res[k], "*aa.Dbus"), as(res[k], "*aa.Dbus").Bus == rules["bus"] && ((len(as(res[k], "*aa.Dbus").Access) == 1 && as(res[k], "*aa.Dbus").Access[0] == "bind" && as(res[k], "*aa.Dbus").Name == rules["name"]) || (as(res[k], "*aa.Dbus").Path == rules["path"] && as(res[k], "*aa.Dbus").Name == "" && forall(a, 0, len(as(res[k], "*aa.Dbus").Access), as(res[k], "*aa.Dbus").Access[a] == "send" || as(res[k], "*aa.Dbus").Access[a] == "receive")))))
+//@   loop 1 invariant typeIs(res[1], "*aa.Dbus") && len(as(res[1], "*aa.Dbus").Access) == 1 && as(res[1], "*aa.Dbus").Access[0] == "bind" && forall(k, 2, len(res), imp(typeIs(res[k], "*aa.Dbus"), !mem(as(res[k], "*aa.Dbus").Access, "bind")))
+//@   ensures forall(k, 0, len(result), imp(typeIs(result[k], "*aa.Dbus"), as(result[k], "*aa.Dbus").Bus == rules["bus"] && ((len(as(result[k], "*aa.Dbus").Access) == 1 && as(result[k], "*aa.Dbus").Access[0] == "bind" && as(result[k], "*aa.Dbus").Name == rules["name"]) || (as(result[k], "*aa.Dbus").Path == rules["path"] && as(result[k], "*aa.Dbus").Name == "" && forall(a, 0, len(as(result[k], "*aa.Dbus").Access), as(result[k], "*aa.Dbus").Access[a] == "send" || as(result[k], "*aa.Dbus").Access[a] == "receive")))))
+//@   ensures len(result) >= 2 && typeIs(result[1], "*aa.Dbus") && len(as(result[1], "*aa.Dbus").Access) == 1 && as(result[1], "*aa.Dbus").Access[0] == "bind" && as(result[1], "*aa.Dbus").Name == rules["name"]
+//@   ensures forall(k, 2, len(result), imp(typeIs(result[k], "*aa.Dbus"), !mem(as(result[k], "*aa.Dbus").Access, "bind")))
+
+//@ func (Dbus).talk
+//@   opt prop=C07
+//@   assigns nothing
+//@   loop 1 invariant forall(k, 0, len(res), res[k] != nil && allocated(res[k]))
+//@   loop 1 invariant forall(k, 0, len(res), imp(typeIs(res[k], "*aa.Dbus"), as(res[k], "*aa.Dbus").Bus == rules["bus"] && as(res[k], "*aa.Dbus").Path == rules["path"] && as(res[k], "*aa.Dbus").PeerLabel == rules["label"] && as(res[k], "*aa.Dbus").Name == "" && as(res[k], "*aa.Dbus").PeerName == concat(concat("\"{@{busname},", rules["name"]), "}\"") && forall(a, 0, len(as(res[k], "*aa.Dbus").Access), as(res[k], "*aa.Dbus").Access[a] == "send" || as(res[k], "*aa.Dbus").Access[a] == "receive")))
+//@   ensures forall(k, 0, len(result), imp(typeIs(result[k], "*aa.Dbus"), as(result[k], "*aa.Dbus").Bus == rules["bus"] && as(result[k], "*aa.Dbus").Path == rules["path"] && as(result[k], "*aa.Dbus").PeerLabel == rules["label"] && as(result[k], "*aa.Dbus").Name == "" && as(result[k], "*aa.Dbus").PeerName == concat(concat("\"{@{busname},", rules["name"]), "}\"") && forall(a, 0, len(as(result[k], "*aa.Dbus").Access), as(result[k], "*aa.Dbus").Access[a] == "send" || as(result[k], "*aa.Dbus").Access[a] == "receive")))
